@@ -210,6 +210,12 @@ func cmdCheck(args []string) int {
 			continue
 		}
 		if lm.Axiom {
+			for _, an := range lm.Anchors {
+				b, err := os.ReadFile(filepath.Join(*repo, an[0]))
+				if err != nil || !strings.Contains(string(b), an[1]) {
+					bindingFailures = append(bindingFailures, fmt.Sprintf("binding failure: axiom %s transcribes text of %s that is no longer there (%q): the assumption does not describe the current source", lm.Name, an[0], an[1]))
+				}
+			}
 			continue
 		}
 		lv, err := P.lemmaVCs(lm)
